@@ -68,21 +68,22 @@ Definition C16_verilog_str_agrees_full_statement : Prop :=
       | None => res_opt (infer (RInt (if neg then - num else num)) (Some w) false)
       end.
 
-(* It is FALSE of the code in three places (each is reported by the search as a spec violation): *)
+(* It is FALSE of the code in two places (each is reported by the search as a spec violation): *)
 (* F13: "-4'd8" is rejected although Const(-8, bitwidth=4) is accepted *)
 Theorem C16_verilog_str_most_negative_refuted :
   exists s neg num w,
     verilog_parse s = Ok (neg, w, num) /\ 0 <= num /\ 1 <= w /\
-    infer (RStr s) None false = Err 5 /\
+    is_ok (infer (RStr s) None false) = false /\
     infer (RInt (if neg then - num else num)) (Some w) false = Ok (8, 4).
 Proof. exists [45; 52; 39; 100; 56], true, 8, 4. vm_compute. repeat split; intro; discriminate. Qed.
 Print Assumptions C16_verilog_str_most_negative_refuted.
 
-(* "0'd0" is accepted with bitwidth 0 although (0, bitwidth=0) is rejected *)
-Theorem C16_verilog_str_zero_width_refuted :
-  infer (RStr [48; 39; 100; 48]) None false = Ok (0, 0) /\ infer (RInt 0) (Some 0) false = Err 1.
-Proof. vm_compute. split; reflexivity. Qed.
-Print Assumptions C16_verilog_str_zero_width_refuted.
+(* (repaired in /repo during this work: a width < 1 written in the string is now rejected, in
+   agreement with the integer path) *)
+Theorem C16_verilog_str_zero_width_rejected : forall s neg num w passed,
+  verilog_parse s = Ok (neg, w, num) -> w < 1 -> is_ok (infer (RStr s) passed false) = false.
+Proof. exact verilog_str_zero_width. Qed.
+Print Assumptions C16_verilog_str_zero_width_rejected.
 
 (* bitwidth=0 passed along with "4'd3" is ignored instead of being rejected *)
 Theorem C16_verilog_str_bitwidth_param_zero_refuted :
